@@ -70,7 +70,7 @@ fn gen_trait_block(r: &mut Rng, i: u64, src: &mut String, mutant: bool) {
 fn gen_model_block(r: &mut Rng, i: u64, src: &mut String, uses: &mut Vec<String>, mutant: bool) {
     let n = r.range(3, 6);
     if r.chance(1, 2) {
-        let derives = *r.pick(&["Debug, Clone", "Debug, Clone, Eq", "Debug, Clone, Serialize, Deserialize", "Debug, Clone, Eq, Hash, Default"]);
+        let derives = *r.pick(&["Debug, Clone", "Debug, Clone, Eq", "Debug, Clone, Serialize, Deserialize", "Debug, Clone, Eq, Hash, Default", "Ord", "Eq, Ord", "Debug, Ord, Hash", "Clone, PartialOrd"]);
         src.push_str(&format!("@derive({derives})\n"));
     }
     src.push_str(&format!("model P{i}:\n"));
@@ -182,6 +182,11 @@ pub fn gen_program(seed: u64) -> Program {
             body.push_str(&format!("pub model Item{m}:\n    id: int\n    label: str\n\n"));
             body.push_str(&format!("pub def helper{m}(x: int) -> int:\n    return x + {m}\n\n"));
             body.push_str(&format!("def private{m}() -> int:\n    return {m}\n"));
+            if mutant && r.chance(1, 4) {
+                // a syntax or lexical error inside an imported module: its diagnostics name the module's file
+                body.push_str(if r.chance(1, 2) { "\ndef broken_dep( -> int:\n    return 1\n" } else { "\ndef broken_dep() -> int:\n    return 1 $ 2\n" });
+                targets.push("dependency diagnostics".to_string());
+            }
             files.push((path, body));
             main.push_str(&import);
             uses.push(format!("    v{m} = helper{m}({m})\n    it{m} = Item{m}(id={m}, label=\"l\")\n"));
